@@ -267,7 +267,7 @@ func (p C07) Run(c *sim.Ctx, t *sim.Tape) sim.RunResult {
 }
 
 func (p C07) runConc(c *sim.Ctx, t *sim.Tape) sim.RunResult {
-	cfg := genConc(t, []string{"memfs", "orefafs"}, 4, 3, t.Chance(500))
+	cfg := genConc(t, []string{"memfs", "orefafs"}, 2+2*deeper(c, t), 2+deeper(c, t), t.Chance(500))
 	r := runConc(t, cfg)
 
 	defer r.S.Free()
